@@ -215,7 +215,8 @@ class GridSampler(BaseSampler):
         if len(target_grids) == 0:
             study.stop()
         elif len(target_grids) == 1:
-            grid_id = study._storage.get_trial_system_attrs(trial._trial_id)["grid_id"]
+            # A trial that did not come from this sampler (e.g., an enqueued one) has no grid id.
+            grid_id = study._storage.get_trial_system_attrs(trial._trial_id).get("grid_id")
             if grid_id == target_grids[0]:
                 study.stop()
 
